@@ -51,16 +51,26 @@ def _tiefree(draw, max_size=12):
         return dict(cluster=cluster, kpos=list(pos), kneg=list(neg), a=a, b=b, ep=0, en=0, arr="cluster", centre=None,
                     a2=draw(st.sampled_from([0.5, 2.0])), b2=float(draw(st.integers(-8, 8))))
     return dict(cluster=cluster, kpos=list(pos), kneg=list(neg), a=a, b=b, ep=draw(ez), en=draw(ez), arr=arr,
+                assign=draw(st.sampled_from([None, None, None, "same-strings", "other-then-assign"])),
                 centre=draw(st.sampled_from([None, None, "gap", "all"])),
                 a2=draw(st.sampled_from([0.5, 2.0, 3.0, 0.1, 7.3, 1e-4, 1e-7, 1e4])),
                 b2=draw(st.floats(min_value=-50, max_value=50)))
 
 
-def _mk(pos, neg, ep, en, sc, ec):
+def _mk(pos, neg, ep, en, sc, ec, assign=None):
     from score_analysis import Scores
 
-    return Scores(np.asarray(pos, dtype=float), np.asarray(neg, dtype=float), nb_easy_pos=ep,
-                  nb_easy_neg=en, score_class=sc, equal_class=ec)
+    if assign == "other-then-assign":
+        # built under the opposite convention, then switched through the public attributes
+        o = Scores(np.asarray(pos, dtype=float), np.asarray(neg, dtype=float), nb_easy_pos=ep,
+                   nb_easy_neg=en, score_class=FLIP[sc], equal_class=FLIP[ec])
+        o.score_class, o.equal_class = sc, ec
+        return o
+    o = Scores(np.asarray(pos, dtype=float), np.asarray(neg, dtype=float), nb_easy_pos=ep,
+               nb_easy_neg=en, score_class=sc, equal_class=ec)
+    if assign == "same-strings":
+        o.score_class, o.equal_class = sc, ec  # the strings the constructor takes, assigned again
+    return o
 
 
 def check_crossing(case):
@@ -97,7 +107,7 @@ def check_crossing(case):
     overlap = False
     for sc, ec in CONFIGS:
         ctx = f"config={sc}/{ec}"
-        s = _mk(pos, neg, ep, en, sc, ec)
+        s = _mk(pos, neg, ep, en, sc, ec, case.get("assign"))
         t, e = s.eer()
         t, e = float(t), float(e)
         require(0.0 <= e <= 1.0, "eer:range", f"{ctx} eer={e!r}")
@@ -212,6 +222,47 @@ def check_packed(case):
             f"{ctx}: t={t!r} eer={e!r} FPR(t)={fpr!r} (off by {abs(fpr - e) * Nn:.1f} samples) FNR(t)={fnr!r} "
             f"(off by {abs(fnr - e) * P:.1f} samples)")
     return dict(nontrivial=0 < e < 1, labels=["packed-large"])
+
+
+# ---------------------------------------------------------------------- crossing near the end of a packed run
+def _packed_edge_cases(tier):
+    """3000 scores of one class 2^-40 apart between two far-away groups of the same class, the other class
+    spread widely with a gap around the run; the curves cross 20-25 samples from an end of the run, so
+    whatever the library probes around the crossing must stay well inside one sample."""
+    for from_top in (True, False):
+        for dist in (20, 25) if tier == "quick" else (5, 20, 25, 60, 200):
+            for which in ("pos", "neg"):
+                for easy in (0, 40000):
+                    for sc, ec in CONFIGS:
+                        yield dict(from_top=from_top, dist=dist, which=which, easy=easy, sc=sc, ec=ec)
+
+
+def check_packed_edge(case):
+    from_top, dist, which, easy, sc, ec = (case[k] for k in ("from_top", "dist", "which", "easy", "sc", "ec"))
+    n_side, n_run = 18500, 3000
+    run = 0.5 + np.arange(n_run) * 2.0**-40
+    packed = np.concatenate([-1.0e6 - 0.25 - 7.0 * np.arange(n_side), run, 1.0e6 + 0.25 + 7.0 * np.arange(n_side)])
+    k = n_run - dist if from_top else dist
+    below = n_side + k  # packed-class scores below the crossing
+    n = len(packed)
+    wide = np.concatenate([-1.0e5 - 50.0 * np.arange(n - below)[::-1], 1.0e5 + 50.0 * np.arange(below)])
+    # as built: packed positives accepted above the threshold; the other roles by reflection
+    pos, neg = (packed, wide) if which == "pos" else (-wide, -packed)
+    if sc == "neg":
+        pos, neg = -pos, -neg
+    from score_analysis import Scores
+
+    s = Scores(pos, neg, nb_easy_pos=easy, nb_easy_neg=easy, score_class=sc, equal_class=ec)
+    t, e = s.eer()
+    t, e = float(t), float(e)
+    P, Nn = len(pos) + easy, len(neg) + easy
+    fpr, fnr = float(s.fpr(t)), float(s.fnr(t))
+    ctx = (f"run of {n_run} {which} scores 2^-40 apart, crossing {dist} from its {'upper' if from_top else 'lower'} end, "
+           f"easy={easy}, config={sc}/{ec}")
+    require(abs(fpr - e) <= 2.0 / Nn + 1e-9 and abs(fnr - e) <= 2.0 / P + 1e-9, "eer:fpr-crossing",
+            f"{ctx}: t={t!r} eer={e!r} FPR(t)={fpr!r} (off by {abs(fpr - e) * Nn:.1f} samples) FNR(t)={fnr!r} "
+            f"(off by {abs(fnr - e) * P:.1f} samples)")
+    return dict(nontrivial=0 < e < 1, labels=["packed-edge"])
 
 
 # ---------------------------------------------------------------------- a packed class under very many easy samples
@@ -343,6 +394,8 @@ PROP = Prop(
                min_nontrivial=10, doc="~1000 inverted scores per class, close hard-sample fractions"),
         Clause("packed_large", check_packed, kind="enum", cases=_packed_cases, quick_shards=8, shards=16,
                min_nontrivial=4, doc="2000-4000 scores 1e-12 apart inside a gap of 2e5-6e5 scores of the other class"),
+        Clause("packed_edge", check_packed_edge, kind="enum", cases=_packed_edge_cases, quick_shards=8, shards=16,
+               min_nontrivial=8, doc="curves cross 20-25 samples from the end of a run of 3000 scores 2^-40 apart"),
         Clause("packed_easy", check_packed_easy, kind="enum", cases=_packed_easy_cases, quick_shards=4, shards=8,
                min_nontrivial=4, doc="200 scores 1e-12 apart under 1e9-1e13 easy samples per class"),
         Clause("zero", check_zero, strategy=st.one_of(_any_scores(), _any_scores(), _any_scores(), _narrow_scores(), _narrow_scores(), _longdouble_scores()), quick=250, thorough=4800, quick_shards=2,
